@@ -12,3 +12,11 @@ txt = "".join(f"import {m}\n" for m in mods)
 f = LEAN / "SparseV.lean"
 if not f.exists() or f.read_text() != txt:
     f.write_text(txt)
+
+# DriverOps.lean: the list of op tables
+ops = sorted(p.stem for p in (LEAN / "DriverOps").glob("*.lean") if p.stem != "Base")
+txt = "".join(f"import DriverOps.{o}\n" for o in ops)
+txt += "open Lean\nnamespace DriverOps\ndef tables : List (String → Array Json → R (Option Json)) := [" + ", ".join(o[0].lower() + o[1:] for o in ops) + "]\nend DriverOps\n"
+f = LEAN / "DriverOps.lean"
+if not f.exists() or f.read_text() != txt:
+    f.write_text(txt)
